@@ -10,7 +10,7 @@ from .childcheck import newsa_index, PROTO_NUM
 from .kernel import _addr_raw
 
 KINDS_C11 = ('invalid_ke_never_offered', 'foreign_child_response', 'foreign_init_response', 'multi_proposal_request')
-KINDS_C12 = ('widen_response', 'flip_mode_response', 'ts_list_request')
+KINDS_C12 = ('widen_response', 'flip_mode_response', 'ts_list_request', 'narrow_rekey_response')
 
 
 def _rb(r, n):
@@ -78,7 +78,7 @@ def make(kind, seed, world, ip, tap, reach):
         return rule, lambda w: state.get('verdict')
 
     # ------------------------------------------------------------------------------------------------------------
-    if kind in ('foreign_child_response', 'widen_response', 'flip_mode_response'):
+    if kind in ('foreign_child_response', 'widen_response', 'flip_mode_response', 'narrow_rekey_response'):
         def rule(meta, data):
             try:
                 h = R.dec_header(data)
@@ -126,6 +126,30 @@ def make(kind, seed, world, ip, tap, reach):
                     other = next((i for i in (2, 12, 14) if i != t['id']), 2)
                     trs.append({'type': t['type'], 'id': other, 'keylen': None, 'attrs': []})
                 what = 'proposal not drawn from the offer (' + how + ')'
+            elif kind == 'narrow_rekey_response':
+                # a legal narrowing - but of a rekey, whose selectors must stay those of the replaced CHILD_SA
+                if req is None or not any(p['type'] == R.P_NOTIFY and p['ntype'] == R.N_REKEY_SA for p in req['payloads']):
+                    return None
+                which = r.choice(['tsi', 'tsr', 'both'])
+                done = False
+                for name, p in (('tsi', tsi), ('tsr', tsr)):
+                    if which in (name, 'both') and p['selectors']:
+                        sel = p['selectors'][0]
+                        n = len(sel['saddr'])
+                        a, z = int.from_bytes(sel['saddr'], 'big'), int.from_bytes(sel['eaddr'], 'big')
+                        how = r.choice(['half', 'port', 'proto'])
+                        if how == 'half' and z > a:
+                            sel['eaddr'] = (a + (z - a) // 2).to_bytes(n, 'big')
+                            done = True
+                        elif how == 'port' and (sel['sport'], sel['eport']) == (0, 65535):
+                            sel['sport'] = sel['eport'] = 443
+                            done = True
+                        elif how == 'proto' and sel['proto'] == 0:
+                            sel['proto'] = 6
+                            done = True
+                if not done:
+                    return None
+                what = f'rekey selectors narrowed ({which})'
             elif kind == 'widen_response':
                 which = r.choice(['tsi', 'tsr', 'both'])
                 for name, p in (('tsi', tsi), ('tsr', tsr)):
@@ -149,6 +173,16 @@ def make(kind, seed, world, ip, tap, reach):
                                 sel['saddr'] = b'\0' * n
                             else:
                                 sel['eaddr'] = (v + 1).to_bytes(n, 'big')
+                # wider than the responder's own answer is not enough: it must leave what the initiator proposed
+                from .wiretap import ts_subset
+                q_tsi = next((p for p in req['payloads'] if p['type'] == R.P_TSi), None) if req else None
+                q_tsr = next((p for p in req['payloads'] if p['type'] == R.P_TSr), None) if req else None
+                if q_tsi is None or q_tsr is None:
+                    return None
+                if (tsi['selectors'] and tsr['selectors'] and any(ts_subset(tsi['selectors'][0], x) for x in q_tsi['selectors'])
+                        and any(ts_subset(tsr['selectors'][0], x) for x in q_tsr['selectors'])):
+                    count('byz.widen_still_inside_offer')
+                    return None
                 what = f'selectors widened ({which})'
             else:
                 has = [p for p in pls if p['type'] == R.P_NOTIFY and p['ntype'] == R.N_USE_TRANSPORT_MODE]
